@@ -40,8 +40,8 @@ func init() {
 			add("transform", "VerifC11RoundTrip", cs("z", 3, "v", 3), 40)
 			add("transform", "VerifC13Tiles", cs("n", 2, "zk", 25, "e", 25, "ov", 25, "maxrun", 3), 40)
 			add("common", "VerifC20Sets", cs("n1", 2, "n2", 2), 40)
-			add("detector", "VerifC05ExtArray", cs("n1", 2, "n2", 1, "h", 3, "v", 2, "ord", 0), 40)
-			add("detector", "VerifC16Op", cs("op", 2, "h", 3, "v", 3, "mix", 0), 100)
+			add("detector", "VerifC05ExtArray", cs("n1", 2, "n2", 1, "h", 3, "v", 2, "hm", 5, "vm", 5), 40)
+			add("detector", "VerifC16Op", cs("op", 2, "h", 3, "v", 3, "mix", 0, "orders", 1), 100)
 			add("detector", "VerifC16Tiles", nil, 100)
 			return is
 		},
